@@ -51,6 +51,13 @@ for spec in specs:
                 pl.build()
                 pl.remove_parameter('zeta')
             params = pl
+        if spec.get('rejected_first') is not None:
+            # an EARLIER batch_run call of the same process was refused outright (an impossible process count); the caller caught that
+            try:
+                batching.batch_run(bm.WarmModel, {'ctl': ctl, 'stop': 0, 'alpha': [7, 8, 9]}, processes=spec['rejected_first'])
+                out['rejected_first'] = 'accepted'
+            except BaseException as e:  # noqa
+                out['rejected_first'] = type(e).__name__
         kw = {}
         if spec.get('max_timesteps') is not None:
             kw['max_timesteps'] = spec['max_timesteps']
